@@ -79,6 +79,9 @@ func overlayFiles(relPkg string, withTest bool, harnessNames []string) (map[stri
 		ov[filepath.Join(repoDir, relPkg, filepath.Base(f))] = b
 	}
 	ov[filepath.Join(repoDir, relPkg, "zz_verif_api.go")] = []byte(strings.ReplaceAll(apiTemplate, "__PKG__", pkgName))
+	if mb, err := os.ReadFile(filepath.Join(verifDir, "models", "models.go.tmpl")); err == nil {
+		ov[filepath.Join(repoDir, relPkg, "zz_verif_models.go")] = []byte(strings.ReplaceAll(string(mb), "__PKG__", pkgName))
+	}
 	if withTest {
 		var hs strings.Builder
 		for _, h := range harnessNames {
